@@ -19,7 +19,7 @@ ASSUME_E3 = ["E3 (schedules): sequential consistency for atomics; Mutex::lock ne
              "(stand-ins for values of an earlier cycle); the PRNG draw is unconstrained in [0, upper)"]
 
 
-def schedule_scenario(e3, name, npush, known):
+def schedule_scenario(e3, name, npush, known, prefilled=0):
     """push (x npush, each on its own thread) || consume, then two quiescent consumes (secondary half, primary half again)"""
     import z3
     import _e3
@@ -45,8 +45,11 @@ def schedule_scenario(e3, name, npush, known):
     c0 = sym.Ctx(eng, 0)
     eng.thread_names[0] = "setup"
     inits = [z3.BitVec(f"stale{i}", 64) for i in range(2 * CAP)]
+    pre = [bv(0x6000 + i) for i in range(prefilled)]          # values pushed (completely) into the active half before the threads start
+    for i, t in enumerate(pre):
+        inits[i] = t
     vals = [c0.alloc("ReservoirValues", {(("idx", i),): (64, inits[h * CAP + i]) for i in range(CAP)}) for h in range(2)]
-    res = c0.alloc("AtomicSamplingReservoir", {(0, 1): (64, bv(0)), (1, 1): (64, bv(0)), (2,): ("bool", z3.BoolVal(True))})
+    res = c0.alloc("AtomicSamplingReservoir", {(0, 1): (64, bv(prefilled)), (1, 1): (64, bv(0)), (2,): ("bool", z3.BoolVal(True))})
     for h in range(2):
         eng.immutable[(res, (h, 0))] = Ptr(("obj", vals[h]), (), bv(CAP))
     eng.leaves[0] = [sym.Leaf(c0, "done")]
@@ -101,8 +104,9 @@ def schedule_scenario(e3, name, npush, known):
     for lab in ("drain1", "drain2", "drain3"):
         ys += [(lab, e, pay) for e, pay in c05.payloads(eng, lab)]
     starts = [(lab, e, pay) for lab in ("drain1", "drain2", "drain3") for e, pay in c05.payloads(eng, lab + ":start")]
-    foreign = z3.Or(*[z3.And(e.guard, z3.Not(z3.Or(*[pay["value"] == t for t in tags]))) for lab, e, pay in ys] or [z3.BoolVal(False)])
-    twice = z3.Or(*[z3.Sum(*[z3.If(z3.And(e.guard, pay["value"] == t), 1, 0) for lab, e, pay in ys]) > 1 for t in tags]) if ys else z3.BoolVal(False)
+    allv = tags + pre
+    foreign = z3.Or(*[z3.And(e.guard, z3.Not(z3.Or(*[pay["value"] == t for t in allv]))) for lab, e, pay in ys] or [z3.BoolVal(False)])
+    twice = z3.Or(*[z3.Sum(*[z3.If(z3.And(e.guard, pay["value"] == t), 1, 0) for lab, e, pay in ys] + [z3.IntVal(0)]) > 1 for t in allv]) if ys else z3.BoolVal(False)
     too_many = z3.Or(*[z3.And(e.guard, z3.Or(z3.UGT(pay["len"], bv(CAP)), z3.UGT(pay["len"], pay["unsampled_len"]))) for lab, e, pay in starts] or [z3.BoolVal(False)])
     # the known mechanism: a drain reads a slot whose pusher has claimed it (count already incremented) but not yet stored the value
     k9 = []
@@ -115,27 +119,30 @@ def schedule_scenario(e3, name, npush, known):
                 for l_ in loads:
                     k9.append(z3.And(c_.guard, s_.guard, l_.guard, sc.clock[c_.id] < sc.clock[l_.id], sc.clock[l_.id] < sc.clock[s_.id]))
     k9c = z3.Or(*k9) if k9 else z3.BoolVal(False)
-    props = [("yields_only_values_of_this_cycle", "a drain yields a value that was not pushed since the previous drain (outside the known claimed-but-not-yet-written mechanism)", z3.And(foreign, z3.Not(k9c)), None),
-             ("no_value_yielded_twice", "a pushed value is yielded by two drains (or twice by one)", twice, None),
+    # the stale slot contents are values of earlier cycles: different from everything pushed in this one
+    stale = [x for x in inits if not any(x is t for t in pre)]
+    distinct = [x != t for x in stale for t in allv]
+    props = [("yields_only_values_of_this_cycle", "a drain yields a value that was not pushed since the previous drain (outside the known claimed-but-not-yet-written mechanism)", z3.And(foreign, z3.Not(k9c)), distinct),
+             ("no_value_yielded_twice", "a pushed value is yielded by two drains (or twice by one)", twice, distinct),
              ("never_more_than_capacity_or_than_pushed", "a drain announces more values than the capacity or than were pushed", too_many, None),
              ("no_panic", "push or consume can panic", sc.reach("panic"), None)]
     kn = {}
     if known:
         props.append(("K9_drain_reads_claimed_but_unwritten_slot", "known finding K9: the drain reads a slot that a concurrent push has claimed (count incremented) but not yet written: a stale value of an earlier cycle is yielded",
-                      z3.And(foreign, k9c), None))
+                      z3.And(foreign, k9c), distinct))
         kn["K9_drain_reads_claimed_but_unwritten_slot"] = "C16:K9-drain-reads-claimed-unwritten-slot"
     import _e3 as E
-    e3.standard(sc, eng, name, f"{npush} pusher thread(s) || consume, then two quiescent consumes; capacity {CAP}; all interleavings of atomic steps; {sc.stats}", props, timeout=300, known=kn,
-                replayer=E.native_replayer("C16", "c16", {**{t: "push" for t in tids if t != ct}, ct: "consume"}, {}))
+    e3.standard(sc, eng, name, f"{prefilled} value(s) already pushed; {npush} pusher thread(s) || consume, then two quiescent consumes; capacity {CAP}; all interleavings of atomic steps; {sc.stats}", props, timeout=300, known=kn,
+                replayer=E.native_replayer("C16", "c16", {**{t: "push" for t in tids if t != ct}, ct: f"consume {prefilled}"}, {}))
 
 
 def run(tier, seed, t0):
     import _e3
     from mirsmt import sym
     e3 = _e3.E3("C16")
-    for nm, np_, known in [("c16_push_consume", 1, True)] + ([("c16_push2_consume", 2, True)] if tier == "thorough" else []):
+    for nm, np_, known, pre in [("c16_push_consume", 1, True, 0), ("c16_prefilled_push_consume", 1, True, 1)] + ([("c16_push2_consume", 2, True, 0)] if tier == "thorough" else []):
         try:
-            schedule_scenario(e3, nm, np_, known)
+            schedule_scenario(e3, nm, np_, known, pre)
         except sym.Unsupported as ex:
             e3.error(nm, "MIR->SMT encoding of AtomicSamplingReservoir", ex)
     obs = list(e3.res.obligations)
